@@ -38,6 +38,15 @@ STR_BY_PARAM = {
 }
 
 
+def probe_names():
+    """single source of the probe names: Definition probe_names in coq/theories/C16/Known.v"""
+    here = os.path.dirname(os.path.dirname(os.path.abspath(__file__)))
+    with open(os.path.join(here, "coq", "theories", "C16", "Known.v")) as f:
+        txt = f.read()
+    m = re.search(r"Definition probe_names : list string := \[(.*?)\]\.", txt, re.S)
+    return re.findall(r'"([^"]*)"', m.group(1))
+
+
 def pyspark_functions_path():
     import importlib.util
     spec = importlib.util.find_spec("pyspark")
